@@ -360,7 +360,7 @@ def run_one(D, opts=None):
         with W.quiet():
             if fam == 0:
                 h.exotic = True
-                nreq = 1 + D.dec('work', 'nreq', 40)
+                nreq = 1 + D.size('work', 'nreq', 40)
                 for k in range(nreq):
                     ind = Individual(W.gen_vector(w, D, 'work', ('v', k)))
                     h.request(ind)
